@@ -50,6 +50,9 @@ def command_units(ctx, fn):
     return units
 
 
+FIRST_STAGE = "lace::parser::AsmParser::new"
+
+
 def run(ctx):
     prog = ctx.prog
     main = ctx.fn(MAIN)
@@ -65,7 +68,9 @@ def run(ctx):
         unit_fns.append((name, main, entry))
     # closures built inside main (and inside functions reachable from main in the bin crate) that may reach a stage
     for n, f in sorted(prog.fns.items()):
-        if f.defkind == "Closure" and n in sa.may and n.startswith("bin::"):
+        # a closure is a unit of its own only if it *starts* an assembly (the watch handler); a closure that merely runs a later
+        # stage on behalf of its creator (`map(|s| s.emit())`) is accounted for at the call that drains it
+        if f.defkind == "Closure" and n in sa.may and n.startswith("bin::") and (ctx.cg.reachable([n]) & {FIRST_STAGE}):
             unit_fns.append(("closure " + short(n), f, 0))
     assembling = 0
     for name, fn, entry in unit_fns:
